@@ -5,3 +5,4 @@ CONSTANTS
   Tier = "thorough"
 INVARIANT LawCall
 INVARIANT LawMulti
+INVARIANT LawOverride
